@@ -54,17 +54,15 @@ def stepsOf (s : Nat) : List Nat → List Nat
 theorem stepsOf_head (s : Nat) (bs : List Nat) : (stepsOf s bs).head? = some (s * prodL bs) := by
   cases bs <;> simp [stepsOf, prodL]
 
-theorem fsSteps_static (s : Nat) (hs : s ≠ 0) : ∀ (bs : List Nat), (∀ b ∈ bs, b ≠ 0) →
+theorem fsSteps_static (s : Nat) : ∀ (bs : List Nat), (∀ b ∈ bs, b ≠ 0) →
     fsSteps (some s) (bs.map some) = (stepsOf s bs).map some
   | [], _ => by simp [fsSteps, stepsOf]
   | b :: r, h => by
-    have ih := fsSteps_static s hs r (fun x hx => h x (by simp [hx]))
+    have ih := fsSteps_static s r (fun x hx => h x (by simp [hx]))
     have hb : b ≠ 0 := h b (by simp)
-    have hp : prodL r ≠ 0 := prodL_ne_zero r (fun x hx => h x (by simp [hx]))
     simp only [map_cons, fsSteps, ih, stepsOf, head?_map, stepsOf_head, Option.map_some, Option.join_some]
     have ht1 : truthy (some b) = true := by simp [truthy, hb]
-    have ht2 : truthy (some (s * prodL r)) = true := by simp [truthy, Nat.mul_ne_zero hs hp]
-    simp only [ht1, ht2, Bool.and_self, if_true, Option.getD_some]
+    simp only [ht1, Option.isSome_some, Bool.and_self, if_true, Option.getD_some]
     congr 2
     rw [Nat.mul_left_comm]
 
@@ -86,10 +84,10 @@ theorem zip_inner (s : Nat) : ∀ (bs : List Nat),
       simp [prodL]
 
 /-- `from_stride(s, [b0, b1, …])` for static non-zero `s` and static non-zero inner bounds -/
-theorem fromStride_static (s : Nat) (hs : s ≠ 0) (b0 : Option Nat) (bs : List Nat) (hbs : ∀ b ∈ bs, b ≠ 0) :
+theorem fromStride_static (s : Nat) (b0 : Option Nat) (bs : List Nat) (hbs : ∀ b ∈ bs, b ≠ 0) :
     fromStride (some s) (b0 :: bs.map some) = ⟨some (s * prodL bs), b0⟩ :: innerStrides s bs := by
   unfold fromStride
-  simp only [tail_cons, fsSteps_static s hs bs hbs]
+  simp only [tail_cons, fsSteps_static s bs hbs]
   have : stepsOf s bs = (s * prodL bs) :: (stepsOf s bs).tail := by
     cases bs <;> simp [stepsOf, prodL]
   rw [this]
@@ -121,13 +119,13 @@ theorem innerStrides_bounds (s : Nat) (bs : List Nat) : (innerStrides s bs).map 
 
 /-- one dimension whose strides on side `st` (source or destination) were built by `from_stride` from a static
 stride `s`, with the source's inner tile bounds `bs`: that side's address of index `x` is `x · s · el`. -/
-theorem strided_dim (st : Entry → Stride) (f : Entry → Nat) (el s : Nat) (hs : s ≠ 0) (b0 b0' : Option Nat)
+theorem strided_dim (st : Entry → Stride) (f : Entry → Nat) (el s : Nat) (b0 b0' : Option Nat)
     (bs : List Nat) (hbs : ∀ b ∈ bs, b ≠ 0) (es : List Entry)
     (h : es.map st = fromStride (some s) (b0 :: bs.map some))
     (hb : es.map (·.ss.bound) = b0' :: bs.map some)
     (hk : ∀ e ∈ es, (∀ v, (st e).step = some v → f e = v * el) ∧ (∀ b, e.ss.bound = some b → e.bound = b)) :
     ∀ x, tileAddrG f es x = x * (s * el) := by
-  rw [fromStride_static s hs b0 bs hbs] at h
+  rw [fromStride_static s b0 bs hbs] at h
   cases es with
   | nil => simp at h
   | cons e0 r =>
@@ -137,21 +135,21 @@ theorem strided_dim (st : Entry → Stride) (f : Entry → Nat) (el s : Nat) (hs
     have hstep : (st e0).step = some (s * prodL bs) := by rw [h.1]
     rw [(hk e0 (by simp)).1 _ hstep, hp, Nat.mul_right_comm]
 
-theorem strided_dim_src (el s : Nat) (hs : s ≠ 0) (b0 : Option Nat) (bs : List Nat) (hbs : ∀ b ∈ bs, b ≠ 0)
+theorem strided_dim_src (el s : Nat) (b0 : Option Nat) (bs : List Nat) (hbs : ∀ b ∈ bs, b ≠ 0)
     (es : List Entry) (h : es.map (·.ss) = fromStride (some s) (b0 :: bs.map some))
     (hk : ∀ e ∈ es, e.Consistent el) (x : Nat) : (tileAddr es x).1 = x * (s * el) := by
   rw [tileAddr_eq]
-  refine strided_dim (·.ss) (·.sstep) el s hs b0 b0 bs hbs es h ?_ (fun e he => ⟨(hk e he).1, (hk e he).2.2⟩) x
+  refine strided_dim (·.ss) (·.sstep) el s b0 b0 bs hbs es h ?_ (fun e he => ⟨(hk e he).1, (hk e he).2.2⟩) x
   have := congrArg (List.map (·.bound)) h
-  rw [fromStride_static s hs b0 bs hbs] at this
+  rw [fromStride_static s b0 bs hbs] at this
   simpa [innerStrides_bounds, Function.comp_def] using this
 
-theorem strided_dim_dst (el s : Nat) (hs : s ≠ 0) (b0 b0' : Option Nat) (bs : List Nat) (hbs : ∀ b ∈ bs, b ≠ 0)
+theorem strided_dim_dst (el s : Nat) (b0 b0' : Option Nat) (bs : List Nat) (hbs : ∀ b ∈ bs, b ≠ 0)
     (es : List Entry) (h : es.map (·.ds) = fromStride (some s) (b0 :: bs.map some))
     (hb : es.map (·.ss.bound) = b0' :: bs.map some)
     (hk : ∀ e ∈ es, e.Consistent el) (x : Nat) : (tileAddr es x).2 = x * (s * el) := by
   rw [tileAddr_eq]
-  exact strided_dim (·.ds) (·.dstep) el s hs b0 b0' bs hbs es h hb (fun e he => ⟨(hk e he).2.1, (hk e he).2.2⟩) x
+  exact strided_dim (·.ds) (·.dstep) el s b0 b0' bs hbs es h hb (fun e he => ⟨(hk e he).2.1, (hk e he).2.2⟩) x
 
 
 /-! ### the entries produced by `resolve` carry exactly the strides of the two (reconstructed) TSLs -/
@@ -355,12 +353,12 @@ theorem nonTsl_dim {strides : List (Option Nat)} {tbs : List (List (Option Nat))
     rw [fromStride_bounds]
 
 /-- SOURCE side: if the source memref has a `strided<…>` attribute or the default layout, dimension `d` has the
-static non-zero stride `s` (in elements) and static non-zero inner tile bounds, then the address the resolved entries
+static stride `s` (in elements) and static non-zero inner tile bounds, then the address the resolved entries
 give to index `x` of that dimension is `x · s · el` bytes: the reconstructed TSL denotes the strided layout. -/
 theorem strided_source_address {bv : Bool} {src dst : MemTy} {rs rd : Rt} {l : Lowered}
     (h : transformDma bv src dst rs rd = .ok l) (hnt : ∀ t, src.layout ≠ .tsl t)
     {strides : List (Option Nat)} (hstr : extractStrides src = some strides)
-    {d s : Nat} (hs : strides[d]? = some (some s)) (hs0 : s ≠ 0)
+    {d s : Nat} (hs : strides[d]? = some (some s))
     {es : List Entry} (hd : l.nested[d]? = some es)
     {b0 : Option Nat} {bs : List Nat} (htb : es.map (·.ss.bound) = b0 :: bs.map some) (hbs : ∀ b ∈ bs, b ≠ 0) (x : Nat) :
     (tileAddr es x).1 = x * (s * src.el) := by
@@ -372,7 +370,7 @@ theorem strided_source_address {bv : Bool} {src dst : MemTy} {rs rd : Rt} {l : L
   have hfs := nonTsl_dim hT hs hX
   have hb : (es.map (·.ss)).map (·.bound) = b0 :: bs.map some := by simpa [Function.comp_def] using htb
   rw [hb] at hfs
-  exact strided_dim_src src.el s hs0 b0 bs hbs es hfs
+  exact strided_dim_src src.el s b0 bs hbs es hfs
     (fun e he => transformDma_consistent h e (mem_flatten.mpr ⟨es, List.mem_of_getElem? hd, he⟩)) x
 
 /-- DESTINATION side, under `EqualTileBounds`. -/
@@ -380,7 +378,7 @@ theorem strided_dest_address {bv : Bool} {src dst : MemTy} {rs rd : Rt} {l : Low
     (h : transformDma bv src dst rs rd = .ok l) (hnt : ∀ t, dst.layout ≠ .tsl t)
     (hETB : l.tS.tileBounds = l.tD.tileBounds)
     {strides : List (Option Nat)} (hstr : extractStrides dst = some strides)
-    {d s : Nat} (hs : strides[d]? = some (some s)) (hs0 : s ≠ 0)
+    {d s : Nat} (hs : strides[d]? = some (some s))
     {es : List Entry} (hd : l.nested[d]? = some es)
     {b0 : Option Nat} {bs : List Nat} (htb : es.map (·.ss.bound) = b0 :: bs.map some) (hbs : ∀ b ∈ bs, b ≠ 0) (x : Nat) :
     (tileAddr es x).2 = x * (s * src.el) := by
@@ -402,7 +400,7 @@ theorem strided_dest_address {bv : Bool} {src dst : MemTy} {rs rd : Rt} {l : Low
   have hb : (es.map (·.ds)).map (·.bound) = b0 :: bs.map some := by
     rw [hbd]; simpa [Function.comp_def] using htb
   rw [hb] at hfs
-  exact strided_dim_dst src.el s hs0 b0 b0 bs hbs es hfs htb
+  exact strided_dim_dst src.el s b0 b0 bs hbs es hfs htb
     (fun e he => transformDma_consistent h e (mem_flatten.mpr ⟨es, List.mem_of_getElem? hd, he⟩)) x
 
 end SnaxVerif.Dma
